@@ -30,7 +30,8 @@ def evaluate_QUBO(Q: np.ndarray, c: float, x: ArrayLike) -> float:
 
     Returns `Q.dot(x).dot(x) + c`
     """
-    return Q.dot(x).dot(x) + c
+    # (np.dot: a sparse container may hand back a scalar when there is one variable)
+    return np.dot(np.atleast_1d(Q.dot(x)), x) + c
 
 def evaluate_Ising(J: np.ndarray, h: ArrayLike, c: float, s: ArrayLike) -> float:
     """
@@ -41,7 +42,8 @@ def evaluate_Ising(J: np.ndarray, h: ArrayLike, c: float, s: ArrayLike) -> float
     Returns `J.dot(s).dot(s) + h.dot(s) + c`
     Note that if `J` does not have zeroed-out diagonal, this could be incorrect
     """
-    return J.dot(s).dot(s) + h.dot(s) + c
+    # (np.dot: a sparse container may hand back a scalar when there is one variable)
+    return np.dot(np.atleast_1d(J.dot(s)), s) + np.dot(h, s) + c
 
 def get_Ising_J_h(matrix):
     """
